@@ -26,10 +26,26 @@ open EdbVerif.Gen.Types
 
 /-! ## Concrete types -/
 
+/-- Scalar types: the generated std scalars, user-defined scalars and enums.
+    `derived chain s` is a user scalar: `chain` = its own id followed by the ids of its user-defined
+    ancestors (`scalar type posint extending myint` is `derived [posint, myint] int64`), `s` its
+    topmost concrete base (`get_topmost_concrete_base`).  An enum is its own concrete base. -/
+inductive Sc where
+  | base (s : Scalar)
+  | derived (chain : List Nat) (s : Scalar)
+  | enum (n : Nat)
+  deriving DecidableEq, Repr, Inhabited
+
+/-- `get_topmost_concrete_base` when it is a std scalar (`none` for an enum: it is its own base) -/
+def Sc.top : Sc → Option Scalar
+  | .base s => some s
+  | .derived _ s => some s
+  | .enum _ => none
+
 /-- Concrete (non-polymorphic) types of the calculus.  Tuples are unnamed; `obj n` is the
     n-th object type of a flat (inheritance-free) user schema. -/
 inductive Ty where
-  | scalar (s : Scalar)
+  | scalar (s : Sc)
   | obj (n : Nat)
   | tuple (ts : List Ty)
   | array (t : Ty)
@@ -116,13 +132,47 @@ def commonS (a b : Scalar) : List Scalar :=
 /-- `ScalarType.find_common_implicitly_castable_type` (with the table order as set order) -/
 def commonScalar (a b : Scalar) : Option Scalar := (commonS a b).head?
 
+/-! ## Scalars with user-defined derivations
+
+`ScalarType.get_implicit_cast_distance / implicitly_castable_to /
+find_common_implicitly_castable_type` all work on the topmost concrete bases of the two scalars:
+a derived scalar is interchangeable with its base for implicit casts, and the common type of two
+scalars with the same concrete base is THAT BASE (`if left == right: return schema, left`) — also
+when the two scalars are the same derived scalar. -/
+
+def castDistSc (a b : Sc) : Option Nat :=
+  match a.top, b.top with
+  | some x, some y => castDistS x y
+  | none, none => if a = b then some 0 else none
+  | _, _ => none
+
+def castableSc (a b : Sc) : Bool := (castDistSc a b).isSome
+
+def commonSc (a b : Sc) : Option Sc :=
+  match a.top, b.top with
+  | some x, some y => (commonScalar x y).map .base
+  | none, none => if a = b then some a else none
+  | _, _ => none
+
+/-- `get_ancestors` restricted to abstract scalars -/
+def Sc.absAnc : Sc → List Abs
+  | .base s => ancestors s
+  | .derived _ s => ancestors s
+  | .enum _ => [.anyenum, .anyscalar]
+
+/-- number of user-defined / concrete ancestors in front of the abstract ones -/
+def Sc.depth : Sc → Nat
+  | .base _ => 0
+  | .derived c _ => c.length
+  | .enum _ => 0
+
 /-! ## Types: distance, castability, common type -/
 
 mutual
 /-- `Type.get_implicit_cast_distance` (`none` = −1).  Object types inherit the default −1;
     the subclass test is made by the caller (`argDist`). -/
 def castDist : Ty → Ty → Option Nat
-  | .scalar a, .scalar b => castDistS a b
+  | .scalar a, .scalar b => castDistSc a b
   | .tuple as, .tuple bs => castDistL as bs
   | .array a, .array b => castDist a b
   | _, _ => none
@@ -138,7 +188,7 @@ end
 mutual
 /-- `Type.implicitly_castable_to` -/
 def implCastable : Ty → Ty → Bool
-  | .scalar a, .scalar b => castableS a b
+  | .scalar a, .scalar b => castableSc a b
   | .obj a, .obj b => a == b
   | .tuple as, .tuple bs => implCastableL as bs
   | .array a, .array b => implCastable a b
@@ -150,12 +200,15 @@ def implCastableL : List Ty → List Ty → Bool
 end
 
 mutual
-/-- `Type.find_common_implicitly_castable_type` -/
+/-- `Type.find_common_implicitly_castable_type`.  Tuples and arrays return `self` when the two
+    types are equal (`if self == other: return self`); scalars have no such shortcut. -/
 def commonType : Ty → Ty → Option Ty
-  | .scalar a, .scalar b => (commonScalar a b).map .scalar
+  | .scalar a, .scalar b => (commonSc a b).map .scalar
   | .obj a, .obj b => if a == b then some (.obj a) else none
-  | .tuple as, .tuple bs => (commonTypeL as bs).map .tuple
-  | .array a, .array b => (commonType a b).map .array
+  | .tuple as, .tuple bs =>
+    if Ty.beqL as bs then some (.tuple as) else (commonTypeL as bs).map .tuple
+  | .array a, .array b =>
+    if Ty.beq a b then some (.array a) else (commonType a b).map .array
   | _, _ => none
 def commonTypeL : List Ty → List Ty → Option (List Ty)
   | [], [] => some []
@@ -185,7 +238,7 @@ end
 mutual
 /-- the concrete type denoted by a non-polymorphic signature type -/
 def concrete : PTy → Option Ty
-  | .scalar s => some (.scalar s)
+  | .scalar s => some (.scalar (.base s))
   | .array e => (concrete e).map .array
   | .tuple es => (concreteL es).map .tuple
   | _ => none
@@ -197,7 +250,7 @@ def concreteL : List PTy → Option (List Ty)
     | _, _ => none
 end
 
-def isSubAbs (s : Scalar) (a : Abs) : Bool := (ancestors s).contains a
+def isSubAbs (s : Sc) (a : Abs) : Bool := s.absAnc.contains a
 
 /-- `arg.test_polymorphic(param)` for a polymorphic `param` -/
 def testPoly : Ty → PTy → Bool
@@ -231,7 +284,7 @@ def inst (base : Ty) : PTy → Option Ty
     if isPoly e then (if base.isArray then none else some (.array base))
     else (concrete e).map .array
   | .tuple es => (instL base es).map .tuple
-  | .scalar s => some (.scalar s)
+  | .scalar s => some (.scalar (.base s))
   | .baseObject => none
   | .unsupported => none
 def instL (base : Ty) : List PTy → Option (List Ty)
@@ -246,6 +299,7 @@ end
 def subclassOf (arg : Ty) (p : PTy) : Bool :=
   match arg, p with
   | .obj _, .baseObject => true
+  | .scalar s, .scalar q => s.top == some q
   | _, _ => match concrete p with
     | some t => arg == t
     | none => false
@@ -295,8 +349,15 @@ mutual
 /-- `valtype.get_common_parent_type_distance(paramtype)` -/
 def typeDist : Ty → PTy → Int
   | .scalar _, .anytype => maxTypeDistance
-  | .scalar s, .scalar s' => if s = s' then 0 else firstCommon (ancestors s) (ancestors s')
-  | .scalar s, .abs a => firstCommon (ancestors s) (a :: absAncestors a)
+  | .scalar s, .scalar s' =>
+    if s = .base s' then 0
+    else if s.top = some s' then s.depth
+    else
+      let k := firstCommon s.absAnc (ancestors s')
+      if k < 0 then -1 else s.depth + k
+  | .scalar s, .abs a =>
+    let k := firstCommon s.absAnc (a :: absAncestors a)
+    if k < 0 then -1 else s.depth + k
   | .obj _, .anytype => maxTypeDistance
   | .obj _, .baseObject => 2
   | .array _, .anytype => 1
